@@ -247,8 +247,8 @@ def r4_reclass(ck, cx):
 
 def run(ck, tier):
     cx = Ctx()
-    r1_agreement(ck, cx)
-    r2_r3_purity(ck, cx)
-    r4_reclass(ck, cx)
+    ck.guard(r1_agreement, ck, cx)
+    ck.guard(r2_r3_purity, ck, cx)
+    ck.guard(r4_reclass, ck, cx)
     ck.assume('equality of values through struct is trusted; bit lists round-trip up to zero padding as a consequence of pack_bitstring/unpack_bitstring (trusted base)')
     return cx.idx
